@@ -1,6 +1,7 @@
 //! Property-based testing / fuzzing harness for codyjk/chess (see /verif/DESIGN.md).
 pub mod bridge;
 pub mod checks;
+pub mod fuzz;
 pub mod gen;
 pub mod history;
 pub mod oracle;
